@@ -272,8 +272,41 @@ def gen_scenario(ctx, k):
         sc.add(f'mark cn{nnot[0]}', f'bus delnode {a[0]}.{a[1]}.{a[2]}', up(model.build_msg(parent, 0, C('MSG_NODE_LOST'), data)), 'quiesce', 'flush', 'quiesce')
         nnot[0] += 1
         version[0] = (version[0] % 255) + 1
+    def node_moves():
+        """a connected leaf board logs on again at another local address beneath the same interface: later commands go to the NEW address"""
+        conn = [b for b in cfg['boards'] if m.connected(b['id']) and m.addr[b['id']] != (0, 0, 0)]
+        used = {m.addr[b['id']] for b in conn} | {tuple(a) for a, _u in nodes}
+
+        def kids(x):
+            ax = m.addr[x['id']]
+            dx = 1 if ax[1] == 0 else 2 if ax[2] == 0 else 3
+            return [y for y in conn if y is not x and dx < 3 and m.addr[y['id']][:dx] == ax[:dx]]
+        leaves = [b for b in conn if not kids(b)]
+        if not leaves:
+            return
+        b = rng.choice(leaves)
+        a = m.addr[b['id']]
+        dpt = 1 if a[1] == 0 else 2 if a[2] == 0 else 3
+        parent = tuple(list(a[:dpt - 1]) + [0] * (3 - (dpt - 1)))
+        for _ in range(20):
+            na = list(a)
+            na[dpt - 1] = rng.randrange(1, 128)
+            na = tuple(na)
+            if na not in used:
+                break
+        else:
+            return
+        data = bytes([version[0], na[dpt - 1]]) + b['uid']
+        m.on_uplink(parent, C('MSG_NODE_NEW'), data)
+        sc.add(f'mark cn{nnot[0]}', f'bus delnode {a[0]}.{a[1]}.{a[2]}', f'bus node {na[0]}.{na[1]}.{na[2]} {b["uid"].hex()}', up(model.build_msg(parent, 0, C('MSG_NODE_NEW'), data)),
+               'quiesce', 'flush', 'quiesce')
+        nnot[0] += 1
+        version[0] = (version[0] % 255) + 1
+    moved_at = set(rng.sample(range(max(1, len(work) // 3)), min(max(1, len(work) // 3), rng.randrange(0, 3)))) if with_notices else set()
     lost_at = set(rng.sample(range(max(1, len(work) // 3)), min(max(1, len(work) // 3), rng.randrange(1, 4)))) if with_notices else set()   # early: most commands come afterwards
     for wi, (fn, args, expf) in enumerate(work):
+        if wi in moved_at:
+            node_moves()
         if wi in lost_at:
             node_lost()
         if expf is None:      # emergency stop
